@@ -261,3 +261,36 @@ func (L *Loaded) anchorMatches(fn *ssa.Function, anchor string) bool {
 	}
 	return strings.Contains(L.nodeText(syn), strings.Join(strings.Fields(anchor), " "))
 }
+
+// typeInvsFor returns the type invariants / representation clauses declared for a named type.
+func (L *Loaded) typeInvsFor(t types.Type) []typeInv {
+	if p, ok := t.(*types.Pointer); ok {
+		t = p.Elem()
+	}
+	n, ok := t.(*types.Named)
+	if !ok || n.Obj().Pkg() == nil {
+		return nil
+	}
+	return L.contracts.typeInvs[n.Obj().Pkg().Path()+"::"+n.Obj().Name()]
+}
+
+// implementations lists the repository's named types that implement the interface named by an interface-contract key.
+func (L *Loaded) ifaceByKey(pkgPath, name string) (*types.Named, *types.Interface) {
+	p := L.typesPkg(pkgPath)
+	if p == nil {
+		return nil, nil
+	}
+	obj, ok := p.Scope().Lookup(name).(*types.TypeName)
+	if !ok {
+		return nil, nil
+	}
+	n, ok := obj.Type().(*types.Named)
+	if !ok {
+		return nil, nil
+	}
+	it, ok := n.Underlying().(*types.Interface)
+	if !ok {
+		return nil, nil
+	}
+	return n, it
+}
